@@ -60,6 +60,19 @@ theorem RunsEq.txid_mem {a b : List Run} (h : RunsEq a b) : ∀ r ∈ a, ∃ r' 
     · obtain ⟨r', hr', he⟩ := ih r h'
       exact ⟨r', List.mem_cons_of_mem _ hr', he⟩
 
+theorem segs_max_ge (gs : List Seg) : ∀ a : Nat, a ≤ gs.foldl (fun m g => max m g.id) a ∧
+    ∀ g ∈ gs, g.id ≤ gs.foldl (fun m g => max m g.id) a := by
+  induction gs with
+  | nil => intro a; exact ⟨Nat.le_refl _, fun g h => by cases h⟩
+  | cons x xs ih =>
+    intro a
+    obtain ⟨h1, h2⟩ := ih (max a x.id)
+    refine ⟨Nat.le_trans (Nat.le_max_left _ _) h1, ?_⟩
+    intro g hg
+    rcases List.mem_cons.mp hg with rfl | h'
+    · exact Nat.le_trans (Nat.le_max_right _ _) h1
+    · exact h2 g h'
+
 /-- **reopen, general form**: from an engine that satisfies `Rec` and `SegOK` and whose external-id map
     can be rebuilt from the node table (every published segment is found in the file), `open` on its
     files succeeds; the reopened engine has the same
@@ -71,7 +84,8 @@ theorem reopen_rec {s : Engine} (hR : Rec s)
     ∃ s', s.reopen = .ok s' ∧ s'.segs = s.segs ∧ s'.segStore = s.segStore ∧ s'.store = s.store ∧
       s'.propsRoot = s.propsRoot ∧ s'.interner = s.interner ∧ s'.vecs = s.vecs ∧ s'.epoch = s.epoch ∧
       s'.ckptTxid = s.ckptTxid ∧ s'.wal = s.wal ∧
-      s'.idmap = { IdMap.load s.idmap.i2e with i2l := s.idmap.i2l } ∧ RunsEq s'.runs s.runs ∧ Rec s' := by
+      s'.idmap = { IdMap.load s.idmap.i2e with i2l := s.idmap.i2l } ∧ RunsEq s'.runs s.runs ∧ Rec s' ∧
+      (∀ g ∈ s'.segs, g.id < s'.nextSegId) := by
   obtain ⟨⟨txs, hb, hl, hs, hg, b1, b2, b3⟩, hp, ha⟩ := hR
   obtain ⟨sc1, sc2, sc3, sc4⟩ := hs
   have hcov : ∀ x iid, s.idmap.lookup x = some iid → (IdMap.load s.idmap.i2e).lookup x = some iid := by
@@ -92,7 +106,12 @@ theorem reopen_rec {s : Engine} (hR : Rec s)
     simp only [e1, hl, sc1, sc2, sc3, sc4, e3, e4, bind, Except.bind, pure, Except.pure]
     rfl
   have hlk : ∀ x, s'.idmap.lookup x = s.idmap.lookup x := hload
-  refine ⟨s', hopen, rfl, rfl, rfl, rfl, rfl, rfl, rfl, rfl, rfl, ?_, hE, ?_⟩
+  refine ⟨s', hopen, rfl, rfl, rfl, rfl, rfl, rfl, rfl, rfl, rfl, ?_, hE, ?_, ?_⟩
+  rotate_left 2
+  · intro g hg
+    show g.id < max (s.segs.foldl (fun m g => max m g.id) 0 + 1) 1
+    have := (segs_max_ge s.segs 0).2 g hg
+    omega
   · show ({ IdMap.load s.idmap.i2e with i2l := s.idmap.i2l ++ [] } : IdMap) = _
     rw [List.append_nil]
   · refine ⟨⟨txs, hb, hl, ⟨sc1, sc2, sc3, sc4⟩, ?_, b1, ?_, ?_⟩, Nat.le_max_right _ _, ?_⟩
@@ -116,7 +135,7 @@ theorem reopen_rec {s : Engine} (hR : Rec s)
     reopened engine satisfies `Sim` for the SAME Spec graph, and `Rec` again -/
 theorem reopen_sim {s : Engine} {g : Graph} (hS : Sim s g) (hR : Rec s) :
     ∃ s', s.reopen = .ok s' ∧ Sim s' g ∧ Rec s' := by
-  obtain ⟨s', hopen, h1, _, _, h4, h5, _, _, _, _, hid, hE, hR'⟩ :=
+  obtain ⟨s', hopen, h1, _, _, h4, h5, _, _, _, _, hid, hE, hR', _⟩ :=
     reopen_rec hR (by rw [hS.G.segs]; intro g hg; cases hg) (load_lookup_eq hS.L)
   have hlk : ∀ x, s'.idmap.lookup x = s.idmap.lookup x := by
     intro x; rw [hid]; exact load_lookup_eq hS.L x
